@@ -79,7 +79,9 @@ def compiled_case(draw):
 
 
 def strategy(tier):
-    return st.one_of(smap_case(), smap_case(), compiled_case())
+    from vf.core import weighted
+
+    return weighted((2, smap_case()), (1, compiled_case()))
 
 
 def compiled_to_case(case, stt):
